@@ -172,6 +172,53 @@ def analyse_loop(ctx, f, loop: ast.While) -> Tuple[bool, str, dict]:
                     took += 1
         if took:
             facts.append(f"iterator-driven: header asks {recv}, every cycle must take next({recv})")
+    # counter loop: `while v < B:` (B not rebound in the loop) whose every rebinding of v adds a positive constant
+    assigned_in_loop = set()
+    for st in walk_no_nested(loop):
+        if isinstance(st, (ast.Assign, ast.AugAssign, ast.AnnAssign, ast.For)):
+            tg = st.targets if isinstance(st, ast.Assign) else [st.target]
+            for t in tg:
+                for n2 in ast.walk(t):
+                    if isinstance(n2, ast.Name):
+                        assigned_in_loop.add(n2.id)
+    for cj in conjuncts(nnf(loop.test)):
+        for l, op, r in compare_parts(cj):
+            if isinstance(op, (ast.Lt, ast.LtE)) and isinstance(l, ast.Name):
+                v = l.id
+                bound_names = {n2.id for n2 in ast.walk(r) if isinstance(n2, ast.Name)}
+                if bound_names & assigned_in_loop:
+                    continue
+                ups = [st for st in walk_no_nested(loop) if (isinstance(st, ast.AugAssign) and dotted(st.target) == v) or
+                       (isinstance(st, ast.Assign) and any(v in {x.id for x in ast.walk(t) if isinstance(x, ast.Name)} for t in st.targets))]
+                if ups and all((isinstance(u, ast.AugAssign) and isinstance(u.op, ast.Add) and _positive(u.value)) or
+                               (isinstance(u, ast.Assign) and len(u.targets) == 1 and dotted(u.targets[0]) == v and isinstance(u.value, ast.BinOp) and isinstance(u.value.op, ast.Add)
+                                and ((dotted(u.value.left) == v and _positive(u.value.right)) or (dotted(u.value.right) == v and _positive(u.value.left)))) for u in ups):
+                    for n, st in cfg.stmt.items():
+                        if any(st is u for u in ups):
+                            G.append(n)
+                    facts.append(f"counter loop: {v} only grows by positive constants and the header requires {v} {'<' if isinstance(op, ast.Lt) else '<='} {src(r)[:30]} (not rebound in the loop)")
+    # consumption by partition: `head, sep, rest = rest.partition(S)` with a non-empty constant S; the loop flag is the
+    # truth of `sep` - `rest` gets strictly shorter while the separator is found and the loop ends when it is not
+    flagname = dotted(loop.test) if isinstance(loop.test, ast.Name) else None
+    if flagname:
+        fdefs = [st for st in walk_no_nested(loop) if isinstance(st, ast.Assign) and len(st.targets) == 1 and dotted(st.targets[0]) == flagname]
+        for st in walk_no_nested(loop):
+            if isinstance(st, ast.Assign) and len(st.targets) == 1 and isinstance(st.targets[0], ast.Tuple) and len(st.targets[0].elts) == 3 \
+                    and isinstance(st.value, ast.Call) and isinstance(st.value.func, ast.Attribute) and st.value.func.attr == "partition" and st.value.args:
+                recv, sepv, restv = dotted(st.value.func.value), dotted(st.targets[0].elts[1]), dotted(st.targets[0].elts[2])
+                try:
+                    sep_const = const_eval(st.value.args[0])
+                except NotConst:
+                    sep_const = None
+                flag_ok = bool(fdefs) and all(
+                    (isinstance(d.value, ast.Call) and dotted(d.value.func) == "bool" and d.value.args and dotted(d.value.args[0]) == sepv) or dotted(d.value) == sepv
+                    or any(dotted(l2) == sepv and isinstance(op2, ast.NotEq) and isinstance(r2, ast.Constant) and r2.value in (b"", "") for l2, op2, r2 in compare_parts(d.value))
+                    for d in fdefs)
+                if recv and recv == restv and sepv and isinstance(sep_const, (bytes, str)) and len(sep_const) > 0 and flag_ok:
+                    for n, s2 in cfg.stmt.items():
+                        if s2 is st:
+                            G.append(n)
+                    facts.append(f"consumption loop: {restv} = tail of {restv}.partition({sep_const!r}); the flag {flagname} is the truth of the separator found")
     if ee == "false":
         # `while data:` - the loop ends when the (re)bound value is empty; progress must come from the body (G)
         facts.append(f"header `{src(loop.test)}` ends the loop on an empty value")
